@@ -130,6 +130,7 @@ func runC04(c *Collector, r *Rng, thorough bool) {
 			}
 		}
 	}
+	c04Refill(c)
 	// decoded messages: the alg consulted is the one in the protected bytes
 	n := 150
 	if thorough {
@@ -179,6 +180,56 @@ func runC04(c *Collector, r *Rng, thorough bool) {
 		default:
 			if !called {
 				c.Fail("C04/decoded-not-called", fmt.Sprintf("alg gate refused a matching message: %v", err), map[string]any{"data": hx(data), "kind": kind})
+			}
+		}
+	}
+}
+
+// c04Refill: Headers.UnmarshalFromRaw on a Headers value that was used before: afterwards the typed maps must
+// say what the raw bytes say, so that the alg consulted by Verify is the one inside the bytes that are verified.
+func c04Refill(c *Collector) {
+	raws := [][]byte{{0x40}, {0x43, 0xa1, 0x01, 0x26}, {0x44, 0xa1, 0x01, 0x38, 0x22}, {0x44, 0xa1, 0x04, 0x41, 0x01}, {0x41, 0xa0}}
+	olds := []cose.ProtectedHeader{nil, {}, {cose.HeaderLabelAlgorithm: cose.AlgorithmES256}, {cose.HeaderLabelAlgorithm: cose.AlgorithmES384, int64(4): []byte("k")}, {int64(1): int64(-7)}}
+	for _, raw := range raws {
+		for oi, old := range olds {
+			for _, ext := range [][]byte{nil, []byte("e")} {
+				for _, va := range []cose.Algorithm{-7, -35} {
+					h := cose.Headers{RawProtected: append([]byte{}, raw...), RawUnprotected: []byte{0xa0}}
+					if old != nil {
+						h.Protected = cose.ProtectedHeader{}
+						for k, v := range old {
+							h.Protected[k] = v
+						}
+						h.Unprotected = cose.UnprotectedHeader{int64(4): []byte("old")}
+					}
+					if err := h.UnmarshalFromRaw(); err != nil {
+						continue
+					}
+					c.Eval("refill", fmt.Sprint(hx(raw), oi, len(ext), va), true)
+					rep := map[string]any{"raw_protected": hx(raw), "previous_protected": fmt.Sprint(old), "ext": hx(ext), "verifier_alg": int64(va)}
+					if len(h.Unprotected) != 0 {
+						c.Fail("C04/refill-keeps-old-entries", "UnmarshalFromRaw of an empty unprotected bucket left old parameters in the typed map", rep)
+					}
+					vf := &spyVerifier{alg: va}
+					m := &cose.Sign1Message{Headers: h, Payload: []byte("p"), Signature: []byte{1}}
+					err := m.Verify(ext, vf)
+					wa, isInt, present := algInWire(raw)
+					called := len(vf.calls) > 0
+					switch {
+					case present && isInt && cose.Algorithm(wa) != va:
+						if called || !errors.Is(err, cose.ErrAlgorithmMismatch) {
+							c.Fail("C04/refill-mismatch", fmt.Sprintf("the protected bytes say alg %d, the verifier is %d: key invoked=%v err=%v", wa, va, called, err), rep)
+						}
+					case !present && len(ext) == 0:
+						if called || !errors.Is(err, cose.ErrAlgorithmNotFound) {
+							c.Fail("C04/refill-absent", fmt.Sprintf("the protected bytes carry no alg and there is no external data: key invoked=%v err=%v (an alg left over in the typed map was consulted)", called, err), rep)
+						}
+					default:
+						if !called {
+							c.Fail("C04/refill-not-called", fmt.Sprintf("the alg gate refused a matching message: %v", err), rep)
+						}
+					}
+				}
 			}
 		}
 	}
